@@ -900,4 +900,73 @@ pub fn agree(m: &Model, ctx: &mut Ctx, rule: &str) {
     }
     ctx.oblige_n(&format!("{}/region-combinations", rule), n);
     ctx.oblige(rule, "int_type_token==integer_constraints", true);
+
+    // serially applied constraints: the component's type is chosen from the bounds that `+=` of PerVisibleRangeConstraints
+    // accumulates, the type of DEFAULT helpers / assignments / values by Integer::int_type, which folds the per-constraint
+    // types with max_restrictive. Both are evaluated on two constraints in either order.
+    let add = m.fns.iter().find(|f| f.name == "add_assign" && f.self_ty.as_deref() == Some("PerVisibleRangeConstraints") && f.sig.inputs.iter().any(|a| matches!(a, syn::FnArg::Typed(t) if tok(&t.ty).replace(' ', "") == "PerVisibleRangeConstraints")));
+    let int_type = m.fns.iter().find(|f| f.name == "int_type" && f.self_ty.as_deref() == Some("Integer") && f.module.starts_with("intermediate"));
+    let (Some(add), Some(int_type)) = (add, int_type) else {
+        ctx.fail_closed(rule, "anchor not found: AddAssign for PerVisibleRangeConstraints / Integer::int_type");
+        return;
+    };
+    let inl = crate::rules::util::inline_all(m, &["IntegerType"]);
+    type C = (i128, i128, bool);
+    let pairs: [(C, C); 4] = [((0, 5, true), (0, 3, false)), ((0, 3, false), (0, 5, true)), ((0, 300, false), (0, 3, false)), ((0, 3, false), (0, 300, false))];
+    for (c1, c2) in pairs {
+        let shown = |c: &C| format!("({}..{}{})", c.0, c.1, if c.2 { ", ..." } else { "" });
+        let what = format!("INTEGER {}{}", shown(&c1), shown(&c2));
+        ctx.oblige(rule, &format!("serial:{}", what), true);
+        // path A: accumulate, then the component selector
+        let pv = |c: &C| Val::Ctor("PerVisibleRangeConstraints".into(), vec![], [("min".to_string(), Val::some(Val::int(c.0))), ("max".to_string(), Val::some(Val::int(c.1))), ("extensible".to_string(), Val::Bool(c.2)), ("is_size_constraint".to_string(), Val::Bool(false))].into_iter().collect());
+        let rhs_name = add.sig.inputs.iter().filter_map(|a| match a { syn::FnArg::Typed(t) => Some(tok(&t.pat).replace("mut ", "")), _ => None }).next().unwrap_or("rhs".into());
+        let eva = Evaluator { consts: &consts, call_hook: &crate::eval::no_hook, inline: None };
+        let mut acc = Val::Ctor("PerVisibleRangeConstraints".into(), vec![], [("min".to_string(), Val::none()), ("max".to_string(), Val::none()), ("extensible".to_string(), Val::Bool(false)), ("is_size_constraint".to_string(), Val::Bool(false))].into_iter().collect());
+        let mut failed = None;
+        for c in [&c1, &c2] {
+            let mut env = Env::new();
+            env.insert("self".into(), acc.clone());
+            env.insert(rhs_name.clone(), pv(c));
+            match eva.eval_fn_body(&add.block, &mut env) {
+                Ok(_) => acc = env.get("self").cloned().unwrap_or(acc),
+                Err(e) => { failed = Some(e); break }
+            }
+        }
+        if let Some(e) = failed {
+            ctx.fail_closed(rule, &format!("[{} accumulated]: {}", what, e));
+            return;
+        }
+        let get = |k: &str| match &acc { Val::Ctor(_, _, f) => f.get(k).cloned(), _ => None };
+        let bound = |v: Option<Val>| match v { Some(Val::Ctor(n, p, _)) if n == "Some" => match p.first() { Some(Val::Int { v, .. }) => Val::some(Val::input(*v)), _ => Val::none() }, _ => Val::none() };
+        let mut e1 = Env::new();
+        e1.insert(typed[0].clone(), bound(get("min")));
+        e1.insert(typed[1].clone(), bound(get("max")));
+        e1.insert(typed[2].clone(), get("extensible").unwrap_or(Val::Bool(false)));
+        e1.insert("self".into(), Val::ctor("Rasn"));
+        let a = match ev1.eval_fn_body(&f1.block, &mut e1) { Ok(v) => canon(&result_name(&v)), Err(e) => { ctx.fail_closed(rule, &format!("[{} component type]: {}", what, e)); return } };
+        // path B: the per-constraint types, folded by Integer::int_type
+        let mut per: Vec<Val> = vec![];
+        for c in [&c1, &c2] {
+            *as_set.borrow_mut() = false;
+            *cur.borrow_mut() = (Some(c.0), Some(c.1), c.2);
+            let mut e2 = Env::new();
+            e2.insert("self".into(), Val::ctor("Constraint"));
+            match ev2.eval_fn_body(&f2.block, &mut e2) { Ok(v) => per.push(match v { Val::Sym(s) => Val::ctor(s.rsplit("::").next().unwrap_or(&s)), o => o }), Err(e) => { ctx.fail_closed(rule, &format!("[{} per-constraint type]: {}", what, e)); return } }
+        }
+        let per2 = per.clone();
+        let hookb = move |_: &Evaluator, name: &str, a: &[Val]| -> Option<Result<Val, String>> {
+            match (name, a.first()) {
+                (".integer_constraints", Some(Val::Sym(s))) => per2.get(if s == "c1" { 0 } else { 1 }).cloned().map(Ok),
+                _ => None,
+            }
+        };
+        let evb = Evaluator { consts: &consts, call_hook: &hookb, inline: Some(&inl) };
+        let mut eb = Env::new();
+        eb.insert("self".into(), Val::Ctor("Integer".into(), vec![], [("constraints".to_string(), Val::List(vec![Val::Sym("c1".into()), Val::Sym("c2".into())])), ("distinguished_values".to_string(), Val::none())].into_iter().collect()));
+        let b = match evb.eval_fn_body(&int_type.block, &mut eb) { Ok(v) => canon(&result_name(&v)), Err(e) => { ctx.fail_closed(rule, &format!("[{} Integer::int_type]: {}", what, e)); return } };
+        if a != b {
+            ctx.violate(rule, &format!("selectors-disagree:serial:{}{}:{}-vs-{}", shown(&c1), shown(&c2), a, b), &int_type.file, int_type.line,
+                &format!("for a component `b {} DEFAULT 2` the field is declared `{}` (bounds accumulated by `+=`: {:?}..{:?}, extensible {:?}) and its DEFAULT function returns `{}` (Integer::int_type: the most restrictive of the per-constraint types): mismatched types in the bindings, without a warning", what, a, get("min").map(|v| v.show()), get("max").map(|v| v.show()), get("extensible").map(|v| v.show()), b));
+        }
+    }
 }
